@@ -23,9 +23,9 @@ DIMS = [
  ('place_policy', ['0', '2']),
  ('auto_advance_ms', ['0', '3', '11']),
 ]
-FAMILIES = ['c01_random', 'c01_pagecycle', 'c01_spanchurn', 'c01_huge', 'c03_align', 'c04_dirty', 'c04_grow', 'c05_realloc', 'c12_holes', 'c12_remote', 'c02_pingpong', 'c09_exit', 'c14_arena', 'c02_hugeremote', 'c15_arenas']
+FAMILIES = ['c01_random', 'c01_pagecycle', 'c01_spanchurn', 'c01_huge', 'c03_align', 'c04_dirty', 'c04_grow', 'c05_realloc', 'c12_holes', 'c12_remote', 'c02_pingpong', 'c09_exit', 'c14_arena', 'c02_hugeremote', 'c15_arenas', 'c09_collect_race']
 
-CONCURRENT = ('c12_remote', 'c02_pingpong', 'c09_exit', 'c14_arena', 'c02_hugeremote', 'c15_arenas')
+CONCURRENT = ('c12_remote', 'c02_pingpong', 'c09_exit', 'c14_arena', 'c02_hugeremote', 'c15_arenas', 'c09_collect_race')
 
 def pairwise_rows(seed=12345):
     """greedy pairwise covering array (deterministic)"""
